@@ -1021,7 +1021,12 @@ static HOOKS: std::sync::atomic::AtomicBool = std::sync::atomic::AtomicBool::new
 /// Panic storms: long runs of consecutive panics with no successfully handled metric in between, released one by one
 /// (so that each panic happens before the next emit), then normal traffic: the sink must keep accepting and delivering.
 fn mode_panic_storm(r: &mut Runner) {
-    for (n_panics, cap, batch) in [(140usize, None, 1usize), (300, None, 20), (200, Some(512usize), 7), (135, Some(4), 1)] {
+    // (limits like "give up after N restarts" sit at round numbers: 128, 256, 1024, 4096 are all crossed)
+    let mut sizes = vec![(140usize, None, 1usize), (300, None, 20), (200, Some(512usize), 7), (135, Some(4), 1), (1100, None, 64), (1040, Some(64usize), 32)];
+    if r.args.flag("big") {
+        sizes.extend([(4200, None, 128), (9000, Some(1024), 256), (70000, None, 1024)]);
+    }
+    for (n_panics, cap, batch) in sizes {
         let mut ops: Vec<SOp> = Vec::new();
         let mut queued = 0;
         for i in 0..n_panics {
